@@ -219,4 +219,563 @@ theorem eval_top (S : TSem) (x : Test) (h : x.QuoteInsensitive S) : S.eval (top 
 
 end TestSem
 
+section ArithInterp
+open Arith
+
+/-! ### B2. arithmetic, interpreter -/
+
+theorem deref_not_name (env : Env) (k : Nat) (s : Bytes) (h : validName s = false) :
+    deref env k s = s := by
+  cases k <;> simp [deref, h]
+
+theorem deref_succ (env : Env) (k : Nat) (n : Bytes) (h : validName n = true) :
+    deref env (k+1) n = if env n = [] then n else if k = 0 then n else deref env k (env n) := by
+  simp [deref, h]
+
+theorem deref_name (env : Env) (n : Bytes) (h : validName n = true) :
+    deref env maxNameRefDepth n = if env n = [] then n else deref env 99 (env n) := by
+  have e : maxNameRefDepth = 99 + 1 := rfl
+  rw [e, deref_succ env 99 n h]
+  simp
+
+theorem evalI_inline (P : Prims) (hP : P.Lawful) (env : Env) (hE : env.NoNames) (e : Arith) :
+    evalI P env (Arith.inline e) = evalI P env e := by
+  cases e with
+  | dollar b n =>
+    simp only [Arith.inline]
+    by_cases hv : validName n = true
+    · simp only [hv, if_true, evalI]
+      have h1 := deref_not_name env maxNameRefDepth (env n) (hE n)
+      have h2 := deref_not_name env 99 (env n) (hE n)
+      rw [deref_name env n hv, h1]
+      by_cases he : env n = []
+      · simp [he, hP.atoi_name n hv]
+      · simp [he, h2]
+    · simp [hv]
+  | _ => rfl
+
+theorem noNames_set (P : Prims) (hP : P.Lawful) (env : Env) (hE : env.NoNames) (n : Bytes) (k : Int) :
+    (env.set n (P.fmt k)).NoNames := by
+  intro m
+  unfold Env.set
+  by_cases h : m = n
+  · simp [h, hP.fmt_not_name]
+  · simp [h, hE m]
+
+theorem evalI_noNames (P : Prims) (hP : P.Lawful) : ∀ (e : Arith) (env : Env) (v : Int) (env' : Env),
+    env.NoNames → evalI P env e = some (v, env') → env'.NoNames := by
+  intro e
+  induction e with
+  | lit w => intro env v env' hE h; simp [evalI] at h; rw [← h.2]; exact hE
+  | dollar b n => intro env v env' hE h; simp [evalI] at h; rw [← h.2]; exact hE
+  | paren x ih => intro env v env' hE h; simp only [evalI] at h; exact ih env v env' hE h
+  | unary op post x ih =>
+    intro env v env' hE h
+    simp only [evalI] at h
+    cases hd : P.incDec op with
+    | some d =>
+      rw [hd] at h
+      cases x with
+      | lit name =>
+        simp at h
+        rw [← h.2]
+        exact noNames_set P hP env hE _ _
+      | _ => simp at h
+    | none =>
+      rw [hd] at h
+      try simp only at h
+      cases hx : evalI P env x with
+      | none => rw [hx] at h; simp at h
+      | some r =>
+        obtain ⟨v1, env1⟩ := r
+        rw [hx] at h
+        simp at h
+        obtain ⟨_, _, _, rfl⟩ := h
+        exact ih env v1 env1 hE hx
+  | tern c a b ihc iha ihb =>
+    intro env v env' hE h
+    simp only [evalI] at h
+    cases hx : evalI P env c with
+    | none => rw [hx] at h; simp at h
+    | some r =>
+      obtain ⟨cv, env1⟩ := r
+      rw [hx] at h
+      try simp only at h
+      have hE1 := ihc env cv env1 hE hx
+      by_cases hc0 : cv ≠ 0
+      · rw [if_pos hc0] at h
+        exact iha env1 v env' hE1 h
+      · rw [if_neg hc0] at h
+        exact ihb env1 v env' hE1 h
+  | binary op x y ihx ihy =>
+    intro env v env' hE h
+    simp only [evalI] at h
+    cases ha : P.assignOp op with
+    | some f =>
+      rw [ha] at h
+      cases x with
+      | lit name =>
+        try simp only at h
+        cases hy : evalI P env y with
+        | none => rw [hy] at h; simp at h
+        | some r =>
+          obtain ⟨arg, env1⟩ := r
+          rw [hy] at h
+          try simp only at h
+          cases hf : f (P.atoi (env name)) arg with
+          | none => rw [hf] at h; simp at h
+          | some val =>
+            rw [hf] at h
+            simp at h
+            rw [← h.2]
+            exact noNames_set P hP env1 (ihy env arg env1 hE hy) _ _
+      | _ => simp at h
+    | none =>
+      rw [ha] at h
+      try simp only at h
+      cases hx : evalI P env x with
+      | none => rw [hx] at h; simp at h
+      | some r =>
+        obtain ⟨l, env1⟩ := r
+        rw [hx] at h
+        try simp only at h
+        have hE1 := ihx env l env1 hE hx
+        by_cases hand : P.isAnd op = true
+        · simp only [hand, if_true] at h
+          by_cases hl : l = 0
+          · simp [hl] at h; rw [← h.2]; exact hE1
+          · rw [if_neg hl] at h
+            cases hy : evalI P env1 y with
+            | none => rw [hy] at h; simp at h
+            | some r2 =>
+              obtain ⟨r, env2⟩ := r2
+              rw [hy] at h
+              simp at h
+              rw [← h.2]
+              exact ihy env1 r env2 hE1 hy
+        · simp only [hand] at h
+          by_cases hor : P.isOr op = true
+          · simp only [hor, if_true] at h
+            by_cases hl : l ≠ 0
+            · simp [hl] at h; rw [← h.2]; exact hE1
+            · rw [if_neg hl] at h
+              cases hy : evalI P env1 y with
+              | none => rw [hy] at h; simp at h
+              | some r2 =>
+                obtain ⟨r, env2⟩ := r2
+                rw [hy] at h
+                simp at h
+                rw [← h.2]
+                exact ihy env1 r env2 hE1 hy
+          · simp only [hor] at h
+            cases hy : evalI P env1 y with
+            | none => rw [hy] at h; simp at h
+            | some r2 =>
+              obtain ⟨r, env2⟩ := r2
+              rw [hy] at h
+              simp at h
+              obtain ⟨_, _, _, rfl⟩ := h
+              exact ihy env1 r env2 hE1 hy
+
+
+/-- evaluation only looks at the results of the operands: congruence for `binary`. -/
+theorem evalI_binary_congr (P : Prims) (hP : P.Lawful) (op : Nat) (x x' y y' : Arith)
+    (hx : ∀ env, env.NoNames → evalI P env x' = evalI P env x)
+    (hy : ∀ env, env.NoNames → evalI P env y' = evalI P env y)
+    (hl : ∀ n, x = .lit n → x' = .lit n)
+    (hw : (P.assignOp op).isSome → ∃ n, x = .lit n)
+    (env : Env) (hE : env.NoNames) :
+    evalI P env (.binary op x' y') = evalI P env (.binary op x y) := by
+  simp only [evalI]
+  cases ha : P.assignOp op with
+  | some f =>
+    obtain ⟨n, rfl⟩ := hw (by simp [ha])
+    rw [hl n rfl]
+    simp only [hy env hE]
+  | none =>
+    simp only [hx env hE]
+    cases hxe : evalI P env x with
+    | none => rfl
+    | some r =>
+      obtain ⟨l, env1⟩ := r
+      have hE1 := evalI_noNames P hP x env l env1 hE hxe
+      simp only [hy env1 hE1]
+
+theorem walkInl_lit (x : Arith) (n : Bytes) (h : x = .lit n) : x.walkInl = .lit n := by
+  subst h; rfl
+
+theorem evalI_simpl (P : Prims) (hP : P.Lawful) : ∀ e : Arith, e.WF P → ∀ env : Env, env.NoNames →
+    (evalI P env e.top = evalI P env e ∧ evalI P env e.walk = evalI P env e ∧
+     evalI P env e.walkInl = evalI P env e) := by
+  intro e
+  induction e with
+  | lit v => intro _ env _; exact ⟨rfl, rfl, rfl⟩
+  | dollar b n =>
+    intro _ env hE
+    exact ⟨evalI_inline P hP env hE _, rfl, evalI_inline P hP env hE _⟩
+  | paren x ih =>
+    intro hw env hE
+    have := ih hw env hE
+    refine ⟨?_, ?_, ?_⟩
+    · simpa [Arith.top, evalI] using this.1
+    · simpa [Arith.walk, evalI] using this.1
+    · simpa [Arith.walkInl, evalI] using this.1
+  | unary op post x ih =>
+    intro hw env hE
+    have hx : evalI P env (.unary op post x.walk) = evalI P env (.unary op post x) := by
+      simp only [evalI]
+      cases hd : P.incDec op with
+      | some d =>
+        obtain ⟨n, rfl⟩ := hw.1 (by simp [hd])
+        rfl
+      | none => simp only [(ih hw.2 env hE).2.1]
+    exact ⟨hx, hx, hx⟩
+  | tern c a b ihc iha ihb =>
+    intro hw env hE
+    have h : evalI P env (.tern c.walkInl a.walkInl b.walkInl) = evalI P env (.tern c a b) := by
+      simp only [evalI, (ihc hw.1 env hE).2.2]
+      cases hce : evalI P env c with
+      | none => rfl
+      | some r =>
+        obtain ⟨v, env1⟩ := r
+        have hE1 := evalI_noNames P hP c env v env1 hE hce
+        simp only [(iha hw.2.1 env1 hE1).2.2, (ihb hw.2.2 env1 hE1).2.2]
+    exact ⟨h, h, h⟩
+  | binary op x y ihx ihy =>
+    intro hw env hE
+    have h : evalI P env (.binary op x.walkInl y.walkInl) = evalI P env (.binary op x y) := by
+      apply evalI_binary_congr P hP op x x.walkInl y y.walkInl
+      · intro env hE; exact (ihx hw.2.1 env hE).2.2
+      · intro env hE; exact (ihy hw.2.2 env hE).2.2
+      · intro n hn; exact walkInl_lit x n hn
+      · exact hw.1
+      · exact hE
+    exact ⟨h, h, h⟩
+
+end ArithInterp
+
+section ArithBash
+open Arith
+
+/-! ### B2'. arithmetic, bash with integer-valued variables -/
+
+theorem evalB_frame (P : Prims) (env0 : IEnv) : ∀ (e : Arith) (env : IEnv) (v : Int) (env' : IEnv),
+    evalB P env0 env e = some (v, env') → ∀ n, n ∉ e.assigned P → env' n = env n := by
+  intro e
+  induction e with
+  | lit w => intro env v env' h n _; simp [evalB] at h; rw [← h.2]
+  | dollar b m => intro env v env' h n _; simp [evalB] at h; rw [← h.2]
+  | paren x ih => intro env v env' h n hn; simp only [evalB] at h; exact ih env v env' h n (by simpa [Arith.assigned] using hn)
+  | unary op post x ih =>
+    intro env v env' h n hn
+    simp only [evalB] at h
+    cases hd : P.incDec op with
+    | some d =>
+      rw [hd] at h
+      cases x with
+      | lit name =>
+        simp at h
+        rw [← h.2]
+        have : n ≠ name := by
+          intro e; subst e
+          simp [Arith.assigned, hd] at hn
+        simp [IEnv.set, this]
+      | _ => simp at h
+    | none =>
+      rw [hd] at h
+      try simp only at h
+      cases hx : evalB P env0 env x with
+      | none => rw [hx] at h; simp at h
+      | some r =>
+        obtain ⟨v1, env1⟩ := r
+        rw [hx] at h
+        simp at h
+        obtain ⟨_, _, _, rfl⟩ := h
+        exact ih env v1 env1 hx n (by
+          intro hm; apply hn; simp [Arith.assigned, hm])
+  | tern c a b ihc iha ihb =>
+    intro env v env' h n hn
+    simp only [Arith.assigned, List.mem_append, not_or] at hn
+    simp only [evalB] at h
+    cases hx : evalB P env0 env c with
+    | none => rw [hx] at h; simp at h
+    | some r =>
+      obtain ⟨cv, env1⟩ := r
+      rw [hx] at h
+      try simp only at h
+      have h1 := ihc env cv env1 hx n hn.1.1
+      by_cases hc0 : cv ≠ 0
+      · rw [if_pos hc0] at h
+        rw [iha env1 v env' h n hn.1.2, h1]
+      · rw [if_neg hc0] at h
+        rw [ihb env1 v env' h n hn.2, h1]
+  | binary op x y ihx ihy =>
+    intro env v env' h n hn
+    simp only [evalB] at h
+    cases ha : P.assignOp op with
+    | some f =>
+      rw [ha] at h
+      cases x with
+      | lit name =>
+        try simp only at h
+        simp only [Arith.assigned, ha, List.mem_append, not_or] at hn
+        cases hy : evalB P env0 env y with
+        | none => rw [hy] at h; simp at h
+        | some r =>
+          obtain ⟨arg, env1⟩ := r
+          rw [hy] at h
+          try simp only at h
+          cases hf : f (env name) arg with
+          | none => rw [hf] at h; simp at h
+          | some val =>
+            rw [hf] at h
+            simp at h
+            rw [← h.2]
+            have hne : n ≠ name := by intro e; subst e; simp at hn
+            simp only [IEnv.set, hne, if_false]
+            exact ihy env arg env1 hy n hn.2
+      | _ => simp at h
+    | none =>
+      rw [ha] at h
+      try simp only at h
+      have hnx : n ∉ x.assigned P := by intro hm; apply hn; simp [Arith.assigned, hm]
+      have hny : n ∉ y.assigned P := by intro hm; apply hn; simp [Arith.assigned, hm]
+      cases hx : evalB P env0 env x with
+      | none => rw [hx] at h; simp at h
+      | some r =>
+        obtain ⟨l, env1⟩ := r
+        rw [hx] at h
+        try simp only at h
+        have h1 := ihx env l env1 hx n hnx
+        by_cases hand : P.isAnd op = true
+        · simp only [hand, if_true] at h
+          by_cases hl : l = 0
+          · simp [hl] at h; rw [← h.2]; exact h1
+          · rw [if_neg hl] at h
+            cases hy : evalB P env0 env1 y with
+            | none => rw [hy] at h; simp at h
+            | some r2 =>
+              obtain ⟨r, env2⟩ := r2
+              rw [hy] at h
+              simp at h
+              rw [← h.2, ihy env1 r env2 hy n hny, h1]
+        · simp only [hand] at h
+          by_cases hor : P.isOr op = true
+          · simp only [hor, if_true] at h
+            by_cases hl : l ≠ 0
+            · simp [hl] at h; rw [← h.2]; exact h1
+            · rw [if_neg hl] at h
+              cases hy : evalB P env0 env1 y with
+              | none => rw [hy] at h; simp at h
+              | some r2 =>
+                obtain ⟨r, env2⟩ := r2
+                rw [hy] at h
+                simp at h
+                rw [← h.2, ihy env1 r env2 hy n hny, h1]
+          · simp only [hor] at h
+            cases hy : evalB P env0 env1 y with
+            | none => rw [hy] at h; simp at h
+            | some r2 =>
+              obtain ⟨r, env2⟩ := r2
+              rw [hy] at h
+              simp at h
+              obtain ⟨_, _, _, rfl⟩ := h
+              rw [ihy env1 r env2 hy n hny, h1]
+
+
+theorem evalB_inline (P : Prims) (env0 env : IEnv) (e : Arith)
+    (h : ∀ n, n ∈ e.dollars → env n = env0 n) :
+    evalB P env0 env (Arith.inline e) = evalB P env0 env e := by
+  cases e with
+  | dollar b n =>
+    simp only [Arith.inline]
+    by_cases hv : validName n = true
+    · simp [hv, evalB, h n (by simp [Arith.dollars])]
+    · simp [hv]
+  | _ => rfl
+
+theorem evalB_simpl (P : Prims) (env0 : IEnv) (D : List Bytes) : ∀ e : Arith, e.WF P →
+    (∀ n, n ∈ e.dollars → n ∈ D) → (∀ n, n ∈ D → n ∉ e.assigned P) →
+    ∀ env : IEnv, (∀ n, n ∈ D → env n = env0 n) →
+    (evalB P env0 env e.top = evalB P env0 env e ∧ evalB P env0 env e.walk = evalB P env0 env e ∧
+     evalB P env0 env e.walkInl = evalB P env0 env e) := by
+  intro e
+  induction e with
+  | lit v => intro _ _ _ env _; exact ⟨rfl, rfl, rfl⟩
+  | dollar b n =>
+    intro _ hd _ env hE
+    have := evalB_inline P env0 env (.dollar b n) (fun m hm => hE m (hd m hm))
+    exact ⟨this, rfl, this⟩
+  | paren x ih =>
+    intro hw hd ha env hE
+    have := ih hw hd ha env hE
+    refine ⟨?_, ?_, ?_⟩
+    · simpa [Arith.top, evalB] using this.1
+    · simpa [Arith.walk, evalB] using this.1
+    · simpa [Arith.walkInl, evalB] using this.1
+  | unary op post x ih =>
+    intro hw hd ha env hE
+    have hx : evalB P env0 env (.unary op post x.walk) = evalB P env0 env (.unary op post x) := by
+      simp only [evalB]
+      cases hdd : P.incDec op with
+      | some d =>
+        obtain ⟨n, rfl⟩ := hw.1 (by simp [hdd])
+        rfl
+      | none =>
+        have := ih hw.2 hd (fun n hn hm => ha n hn (by simp [Arith.assigned, hm])) env hE
+        simp only [this.2.1]
+    exact ⟨hx, hx, hx⟩
+  | tern c a b ihc iha ihb =>
+    intro hw hd ha env hE
+    have hdc : ∀ n, n ∈ c.dollars → n ∈ D := fun n hn => hd n (by simp [Arith.dollars, hn])
+    have hda : ∀ n, n ∈ a.dollars → n ∈ D := fun n hn => hd n (by simp [Arith.dollars, hn])
+    have hdb : ∀ n, n ∈ b.dollars → n ∈ D := fun n hn => hd n (by simp [Arith.dollars, hn])
+    have hac : ∀ n, n ∈ D → n ∉ c.assigned P := fun n hn hm => ha n hn (by simp [Arith.assigned, hm])
+    have haa : ∀ n, n ∈ D → n ∉ a.assigned P := fun n hn hm => ha n hn (by simp [Arith.assigned, hm])
+    have hab : ∀ n, n ∈ D → n ∉ b.assigned P := fun n hn hm => ha n hn (by simp [Arith.assigned, hm])
+    have h : evalB P env0 env (.tern c.walkInl a.walkInl b.walkInl) = evalB P env0 env (.tern c a b) := by
+      simp only [evalB, (ihc hw.1 hdc hac env hE).2.2]
+      cases hce : evalB P env0 env c with
+      | none => rfl
+      | some r =>
+        obtain ⟨v, env1⟩ := r
+        have hE1 : ∀ n, n ∈ D → env1 n = env0 n := fun n hn => by
+          rw [evalB_frame P env0 c env v env1 hce n (hac n hn)]; exact hE n hn
+        simp only [(iha hw.2.1 hda haa env1 hE1).2.2, (ihb hw.2.2 hdb hab env1 hE1).2.2]
+    exact ⟨h, h, h⟩
+  | binary op x y ihx ihy =>
+    intro hw hd ha env hE
+    have hdx : ∀ n, n ∈ x.dollars → n ∈ D := fun n hn => hd n (by simp [Arith.dollars, hn])
+    have hdy : ∀ n, n ∈ y.dollars → n ∈ D := fun n hn => hd n (by simp [Arith.dollars, hn])
+    have hax : ∀ n, n ∈ D → n ∉ x.assigned P := fun n hn hm => ha n hn (by simp [Arith.assigned, hm])
+    have hay : ∀ n, n ∈ D → n ∉ y.assigned P := fun n hn hm => ha n hn (by simp [Arith.assigned, hm])
+    have h : evalB P env0 env (.binary op x.walkInl y.walkInl) = evalB P env0 env (.binary op x y) := by
+      simp only [evalB]
+      cases hao : P.assignOp op with
+      | some f =>
+        obtain ⟨n, rfl⟩ := hw.1 (by simp [hao])
+        simp only [Arith.walkInl, (ihy hw.2.2 hdy hay env hE).2.2]
+      | none =>
+        simp only [(ihx hw.2.1 hdx hax env hE).2.2]
+        cases hxe : evalB P env0 env x with
+        | none => rfl
+        | some r =>
+          obtain ⟨l, env1⟩ := r
+          have hE1 : ∀ n, n ∈ D → env1 n = env0 n := fun n hn => by
+            rw [evalB_frame P env0 x env l env1 hxe n (hax n hn)]; exact hE n hn
+          simp only [(ihy hw.2.2 hdy hay env1 hE1).2.2]
+    exact ⟨h, h, h⟩
+
+end ArithBash
+
+/-! ### B4. nested subshells -/
+
+theorem runCmd_sub_sub (inner : List Stmt) (s : ShState) :
+    runCmd (.sub [.mk false false (.sub inner)]) s = runCmd (.sub inner) s := by
+  simp [runCmd, runStmts, runStmt]
+
+theorem runCmd_inlineSub : ∀ (f : Nat) (stmts : List Stmt) (s : ShState),
+    runCmd (.sub (inlineSub f stmts)) s = runCmd (.sub stmts) s := by
+  intro f
+  induction f with
+  | zero => intro stmts s; rfl
+  | succ f ih =>
+    intro stmts s
+    simp only [inlineSub]
+    split
+    · rename_i inner
+      rw [ih inner s, runCmd_sub_sub]
+    · rfl
+
+theorem cmdSubst_sub (inner : List Stmt) (s : ShState) :
+    cmdSubst [.mk false false (.sub inner)] s = cmdSubst inner s := by
+  simp [cmdSubst, runCmd, runStmts, runStmt]
+
+theorem cmdSubst_inlineSub : ∀ (f : Nat) (stmts : List Stmt) (s : ShState),
+    cmdSubst (inlineSub f stmts) s = cmdSubst stmts s := by
+  intro f
+  induction f with
+  | zero => intro stmts s; rfl
+  | succ f ih =>
+    intro stmts s
+    simp only [inlineSub]
+    split
+    · rename_i inner
+      rw [ih inner s, cmdSubst_sub]
+    · rfl
+
+
+/-! ### concrete primitives are lawful -/
+
+theorem letter_not_digit (b : UInt8) (h : (isLetter b || b == 95) = true) : isDigit b = false := by
+  simp only [isLetter, Bool.or_eq_true, Bool.and_eq_true, decide_eq_true_eq, beq_iff_eq,
+    UInt8.le_iff_toNat_le] at h
+  simp only [isDigit, Bool.and_eq_false_iff, decide_eq_false_iff_not, UInt8.le_iff_toNat_le]
+  have e95 : b = 95 → b.toNat = 95 := by intro e; subst e; rfl
+  have : (48 : UInt8).toNat = 48 := rfl
+  have : (57 : UInt8).toNat = 57 := rfl
+  have : (65 : UInt8).toNat = 65 := rfl
+  have : (90 : UInt8).toNat = 90 := rfl
+  have : (97 : UInt8).toNat = 97 := rfl
+  have : (122 : UInt8).toNat = 122 := rfl
+  rcases h with (h | h) | h
+  · omega
+  · omega
+  · have := e95 h; omega
+
+theorem atoiDec_name (n : Bytes) (h : validName n = true) : atoiDec n = atoiDec [] := by
+  cases n with
+  | nil => rfl
+  | cons b rest =>
+    simp only [validName, Bool.and_eq_true] at h
+    have hd := letter_not_digit b h.1
+    have h45 : b ≠ 45 := by
+      have h1 := h.1
+      intro e; subst e; revert h1; decide
+    simp [atoiDec, h45, List.all_cons, hd]
+
+theorem fmtNatAux_head : ∀ (f n : Nat) (acc : Bytes),
+    ∃ d rest, fmtNatAux (f+1) n acc = d :: rest ∧ isDigit d = true := by
+  intro f
+  induction f with
+  | zero =>
+    intro n acc
+    refine ⟨UInt8.ofNat (48 + n % 10), acc, ?_, ?_⟩
+    · simp [fmtNatAux]
+    · have : n % 10 < 10 := Nat.mod_lt _ (by decide)
+      simp only [isDigit, Bool.and_eq_true, decide_eq_true_eq, UInt8.le_iff_toNat_le, UInt8.toNat_ofNat']
+      have : (48 : UInt8).toNat = 48 := rfl
+      have : (57 : UInt8).toNat = 57 := rfl
+      omega
+  | succ f ih =>
+    intro n acc
+    simp only [fmtNatAux]
+    by_cases hn : n < 10
+    · refine ⟨UInt8.ofNat (48 + n % 10), acc, by simp [hn], ?_⟩
+      have : n % 10 < 10 := Nat.mod_lt _ (by decide)
+      simp only [isDigit, Bool.and_eq_true, decide_eq_true_eq, UInt8.le_iff_toNat_le, UInt8.toNat_ofNat']
+      have : (48 : UInt8).toNat = 48 := rfl
+      have : (57 : UInt8).toNat = 57 := rfl
+      omega
+    · simp only [hn, if_false]
+      exact ih (n / 10) _
+
+theorem digit_not_nameStart (d : UInt8) (h : isDigit d = true) : (isLetter d || d == 95) = false := by
+  cases hc : (isLetter d || d == 95) with
+  | false => rfl
+  | true => rw [letter_not_digit d hc] at h; exact absurd h (by decide)
+
+theorem fmtInt_not_name (k : Int) : validName (fmtInt k) = false := by
+  unfold fmtInt
+  obtain ⟨d, rest, e, hd⟩ := fmtNatAux_head k.natAbs k.natAbs []
+  split
+  · simp [validName, isLetter]
+  · unfold fmtNat
+    rw [e]
+    simp [validName, digit_not_nameStart d hd]
+
+theorem demoPrims_lawful : demoPrims.Lawful :=
+  ⟨atoiDec_name, fmtInt_not_name⟩
+
+
 end ShVerif.C04
